@@ -32,3 +32,6 @@ def run(project, rep):
     from .. import rules_dates as Z
     rep.run(Z.z_r7_aware_values_kept, project, rep)
     rep.run(Z.z_r3_writer_shape, project, rep)
+    from .. import rules_types as T
+    rep.rule("Q-R8", "the identifiers written are the identifiers supplied: the string writers return exactly what passed the length check, nothing clipped (T-R3)")
+    rep.run(T.t_r3, project, rep)
